@@ -109,6 +109,9 @@ def mInvalidDateFormat : Bytes := bs "invalid date format: "
 def mExpectedAccount : Bytes := bs "expected account name"
 def mExpectedNumber : Bytes := bs "expected number"
 def mInvalidNumber : Bytes := bs "invalid number: "
+def mExponentRange : Bytes := bs "invalid number: exponent out of range: "
+/-- `maxAmountExponent`. -/
+def maxAmountExponent : Int := 1000
 def mExpectedFilePath : Bytes := bs "expected file path"
 def mExpectedCommodity : Bytes := bs "expected commodity"
 def mExpectedYear : Bytes := bs "expected year"
@@ -241,6 +244,8 @@ def parseAmount (st : PState σ) : Option Amount × PState σ :=
   match E.num.decOfString numberStr with
   | none => (none, error st (mInvalidNumber ++ st.current.val))
   | some qty =>
+    if qty.exp > maxAmountExponent ∨ qty.exp < -maxAmountExponent then
+      (none, error st (mExponentRange ++ st.current.val)) else
     let st := advance E st
     let (com, st) : Commodity × PState σ :=
       if com.symbol = [] then
